@@ -27,7 +27,7 @@ def run(tier, seed):
         (D.antiwindup('C09', stale=True), D.WIT_AW, D.replay_antiwindup),
         (D.switcher('C09'),),
         (D.deadband_rt('C09'), D.WIT_F6, D.replay_deadband_rt),
-        (D.delay('C09'),), (D.average('C09'),), (D.derivative('C09'),), (D.sampling('C09'),),
+        (D.delay('C09'),), (D.average('C09'), None, D.replay_average), (D.derivative('C09'),), (D.sampling('C09'),),
     ]
     run_contracts(pack, items)
     from contracts import C01_assembly
